@@ -14,7 +14,7 @@ import inspect
 from datetime import datetime as dt
 
 from pyvc.api import *  # noqa: F401,F403
-from pyvc.harness import harness, structural
+from pyvc.harness import harness, native, structural
 from ramses_rf import entity_base as EB
 from ramses_rf.device import heat as DH
 from ramses_rf.system import heat as SH
@@ -173,3 +173,129 @@ def views_under_contract_exist():
         ("every view named in UNDER_CONTRACT still exists in the code", len(contracted) == len(UNDER_CONTRACT), ", ".join(contracted)),
         (f"{len(other)} composite views are NOT under contract (assumption, listed in the evidence)", True, ", ".join(other[:12]) + " ..."),
     ]
+
+
+# ---- bounded stand-in for the views that are not under contract ------------------------------------------
+_LINE = None
+_SENTINELS = "00 FF 7F EF F0 FE C8 C9 80 01".split()
+
+
+def _mutated_payload(pl, rx, rng):
+    import re
+
+    from .c05_payloads import random_match
+    for _ in range(20):
+        cand = random_match(rx, rng)
+        if len(cand) != len(pl):
+            continue
+        c = list(cand)
+        for _ in range(rng.randint(0, 3)):  # bias towards sentinel bytes, where the schema admits them
+            i = rng.randrange(0, len(c) // 2) * 2
+            d = c[:]
+            d[i:i + 2] = rng.choice(_SENTINELS)
+            if re.match(rx, "".join(d)):
+                c = d
+        return "".join(c)
+    return None
+
+
+def _all_views(gwy):
+    errs = []
+
+    def chk(name, f):
+        try:
+            f()
+        except Exception as e:  # noqa: BLE001
+            errs.append((name, f"{type(e).__name__}({e})"[:160]))
+
+    for a in ("schema", "params", "status", "known_list"):
+        chk("gwy." + a, lambda a=a: getattr(gwy, a))
+    chk("gwy.get_state()", gwy.get_state)
+    chk("gwy.get_state(include_expired=True)", lambda: gwy.get_state(True))
+    ents = [("device " + d.id, d) for d in gwy.devices]
+    for t in gwy.systems:
+        ents.append(("system " + t.id, t))
+        ents += [("zone " + z.id, z) for z in t.zones]
+        if getattr(t, "dhw", None):
+            ents.append(("dhw " + t.dhw.id, t.dhw))
+    for _, e in ents:
+        for a in ("schema", "params", "status", "traits"):
+            chk(f"{type(e).__name__}.{a}", lambda e=e, a=a: getattr(e, a))
+    return errs
+
+
+@native("C13")
+def views_answer_after_a_mutated_packet_native(seed, n):
+    """Bounded stand-in for the composite views that are not under contract: one of the repository's
+    system logs (tests/tests/systems/*/packet.log) is replayed into a REAL Gateway (file transport,
+    eavesdropping on or off) with one I/RP packet's payload replaced by a random payload of the same
+    length that its schema regex admits, biased to sentinel bytes, inserted after the original or as
+    the last packet; afterwards every public view of the gateway and of every device, system and
+    zone, and both snapshots, must answer.  n histories per run (seeded)."""
+    import asyncio
+    import glob
+    import logging
+    import os
+    import random
+    import re
+    import tempfile
+
+    import ramses_rf
+    from ramses_rf import Gateway
+    from ramses_tx.ramses import CODES_SCHEMA
+    line_rx = re.compile(r"^(\S+[ T]\S+) (\d{3}|\.\.\.) ( I|RP|RQ| W) (\S+) (\S+) (\S+) (\S+) ([0-9A-F]{4}) (\d{3}) ([0-9A-F]+)")
+    repo = os.path.dirname(os.path.dirname(os.path.dirname(ramses_rf.__file__)))
+    logs = sorted(glob.glob(repo + "/tests/tests/systems/*/packet.log"))
+    rng = random.Random(seed)
+    fails, seen, evals = [], set(), 0
+
+    async def load(lines, eavesdrop):
+        fd, path = tempfile.mkstemp(suffix=".log")
+        os.close(fd)
+        try:
+            with open(path, "w") as f:
+                f.write("\n".join(lines) + "\n")
+            with open(path) as f:
+                gwy = Gateway(None, input_file=f, config={"enable_eavesdrop": eavesdrop})
+                await gwy.start()
+                await gwy._protocol.wait_for_connection_lost()
+                await asyncio.sleep(0.005)
+        finally:
+            os.unlink(path)
+        return gwy
+
+    async def main():
+        nonlocal evals
+        for _ in range(n):
+            log = rng.choice(logs)
+            lines = [ln.rstrip("\n") for ln in open(log) if line_rx.match(ln)]
+            cand = [k for k, ln in enumerate(lines) if line_rx.match(ln).group(3) in (" I", "RP")]
+            if not cand:
+                continue
+            k = rng.choice(cand)
+            m = line_rx.match(lines[k])
+            code, verb, pl = m.group(8), m.group(3), m.group(10)
+            rx = CODES_SCHEMA.get(code, {}).get(verb)
+            new = _mutated_payload(pl, rx, rng) if isinstance(rx, str) else None
+            eavesdrop, insert = rng.random() < 0.5, rng.random() < 0.5
+            if new is None:
+                continue
+            mutated = lines[k][:m.start(10)] + new + lines[k][m.end(10):]
+            hist = lines[:k + 1] + [mutated] + lines[k + 1:] if insert else lines[:k] + [mutated]
+            gwy = await load(hist, eavesdrop)
+            evals += 1
+            for name, err in _all_views(gwy):
+                key = (name, err.split("(")[0], code)
+                if key not in seen:
+                    seen.add(key)
+                    fails.append({"label": "every public view answers after any schema-conforming packet",
+                                  "witness": {"seed": seed, "log": os.path.relpath(log, repo), "packet": mutated[27:], "position": "inserted" if insert else "last",
+                                              "eavesdrop": eavesdrop, "view": name, "raised": err}})
+            await gwy.stop()
+
+    logging.disable(logging.CRITICAL)
+    try:
+        asyncio.run(main())
+    finally:
+        logging.disable(logging.NOTSET)
+    return {"evaluations": evals, "failures": fails}
